@@ -35,6 +35,8 @@ def run(ctx):
     ctx.rule = "instances = 36 kind pairs + negation/binding + freshness facts of the operand vector + arm agreement with ==; non-trivial = specialisation / def-use"
     ctx.trusted = ["spec/arms/strict_eq.json transcribes ECMA-262 7.2.15", "IEEE equality on doubles (1 == 1.0, 0 == -0)", "Vec<Value> elements are distinct objects"]
     spec = json.load(open(os.path.join(VERIF, "spec", "arms", "strict_eq.json")))["matrix"]
+    from . import manifest as _MF
+    _MF.same_library_clause(ctx, "K2.number-model")
     cfgs = ["default"] if ctx.tier == "quick" else ["default", "python", "wasm"]
     for cfg in cfgs:
         facts = ctx.facts(cfg)
